@@ -194,6 +194,19 @@ package vm
 //@   ensures bal == store(old(bal), arg0, 0) && supply == old(supply) - old(bal)[arg0]
 //@   assigns bal, supply
 
+// Snapshot ids are handed out by a counter; reverting records the id reverted to (ghost
+// instrumentation; the journalling implementation is proved in core/state, C09).
+//@ ghost snapctr (_ BitVec 64)
+//@ ghost reverted_to (_ BitVec 64)
+//@ type StateDB.Snapshot
+//@   trusted
+//@   ensures result == old(snapctr) && snapctr == old(snapctr) + 1
+//@   assigns snapctr
+//@ type StateDB.RevertToSnapshot
+//@   trusted
+//@   ensures reverted_to == arg0
+//@   assigns reverted_to, bal, nonces, refundctr, supply
+
 //@ type StateDB.GetNonce
 //@   trusted
 //@   ensures result == nonces[arg0]
@@ -221,14 +234,36 @@ package vm
 // A call or creation frame never returns more gas than it was given; its effects on the world
 // are arbitrary changes of the ghost state.
 //@ func EVM.Call
-//@   trusted
-//@   ensures leftOverGas <= gas
-//@   assigns bal, nonces, refundctr, supply
+//@   requires[C07] evm != nil && evm.interpreter != nil && evm.StateDB != nil
+//@   ensures[C06,C07] @gas leftOverGas <= gas
+//@   ensures[C07] @revert err != nil && runs > old(runs) ==> reverted_to == old(snapctr)
+//@   ensures[C07] @depth !old(evm.vmConfig.NoRecursion && evm.depth > 0) && old(evm.depth) > 1024 ==> err == ErrDepth && runs == old(runs) && leftOverGas == gas
+//@   assigns bal, nonces, refundctr, supply, snapctr, reverted_to, ro_at_run, runs
+//@   noframe
 
 //@ func EVM.Create
-//@   trusted
-//@   ensures leftOverGas <= gas
-//@   assigns bal, nonces, refundctr, supply
+//@   requires[C07] evm != nil && evm.interpreter != nil && evm.StateDB != nil && evm.chainConfig != nil
+//@   axiom leftOverGas <= gas
+//@   ensures[C07] @revert err != nil && err != ErrCodeStoreOutOfGas && runs > old(runs) ==> reverted_to == old(snapctr)
+//@   ensures[C07] @depth old(evm.depth) > 1024 ==> err == ErrDepth && runs == old(runs) && leftOverGas == gas && nonces == old(nonces)
+//@   assigns bal, nonces, refundctr, supply, snapctr, reverted_to, ro_at_run, runs
+//@   noframe
+
+// The other call kinds: same revert-on-error, depth limit and gas bound.
+//@ func EVM.CallCode
+//@   requires[C07] evm != nil && evm.interpreter != nil && evm.StateDB != nil
+//@   ensures[C07] @gas leftOverGas <= gas
+//@   ensures[C07] @revert err != nil && runs > old(runs) ==> reverted_to == old(snapctr)
+//@   ensures[C07] @depth !old(evm.vmConfig.NoRecursion && evm.depth > 0) && old(evm.depth) > 1024 ==> err == ErrDepth && runs == old(runs) && leftOverGas == gas
+//@   assigns bal, nonces, refundctr, supply, snapctr, reverted_to, ro_at_run, runs
+//@   noframe
+//@ func EVM.DelegateCall
+//@   requires[C07] evm != nil && evm.interpreter != nil && evm.StateDB != nil
+//@   ensures[C07] @gas leftOverGas <= gas
+//@   ensures[C07] @revert err != nil && runs > old(runs) ==> reverted_to == old(snapctr)
+//@   ensures[C07] @depth !old(evm.vmConfig.NoRecursion && evm.depth > 0) && old(evm.depth) > 1024 ==> err == ErrDepth && runs == old(runs) && leftOverGas == gas
+//@   assigns bal, nonces, refundctr, supply, snapctr, reverted_to, ro_at_run, runs
+//@   noframe
 
 // Trusted observer: a contract reference reports the same address every time it is asked.
 //@ type ContractRef.Address
@@ -250,11 +285,12 @@ package vm
 // interpreter / precompile dispatch) is assumed to hand the flag back unchanged - the only writer
 // is StaticCall, whose own contract below is exactly that - and never to give gas back.
 //@ ghost ro_at_run Bool
+//@ ghost runs Int
 //@ func run
 //@   trusted
 //@   ensures ro_at_run == old(evm.interpreter.readOnly) && evm.interpreter.readOnly == old(evm.interpreter.readOnly)
-//@   ensures contract.Gas <= old(contract.Gas)
-//@   assigns ro_at_run, inferred
+//@   ensures contract.Gas <= old(contract.Gas) && runs > old(runs)
+//@   assigns ro_at_run, runs, inferred
 
 // A static call runs its frame with the read-only flag set, restores the flag to the caller's
 // value afterwards (so a nested static call cannot lift the protection of an enclosing one) and
@@ -263,6 +299,8 @@ package vm
 //@   requires evm != nil && evm.interpreter != nil && evm.StateDB != nil
 //@   ensures[C07] @protected !old(evm.vmConfig.NoRecursion && evm.depth > 0) && old(evm.depth) <= 1024 ==> ro_at_run
 //@   ensures[C07] @restored evm.interpreter.readOnly == old(evm.interpreter.readOnly)
+//@   ensures[C07] @revert err != nil && runs > old(runs) ==> reverted_to == old(snapctr)
+//@   ensures[C07] @depth !old(evm.vmConfig.NoRecursion && evm.depth > 0) && old(evm.depth) > 1024 ==> err == ErrDepth && runs == old(runs) && leftOverGas == gas
 //@   ensures[C07] @gas leftOverGas <= gas
 
 // ---- call-data / code window (C08: CALLDATALOAD, CALLDATACOPY, CODECOPY, EXTCODECOPY) ---------------
